@@ -115,7 +115,7 @@ theorem row_stop {src : Bytes} {offs : List Nat} {maxrow ncols : Nat} {k np : Na
       CellStart src offs maxrow ncols s (A0 ++ ((renderCells cs).take m ++ X).takeWhile isWs) j false k np E' → Ext E E' →
       StrictCaps offs ncols E' →
       ∃ n s', KSteps src offs maxrow n s s' ∧
-        (WindowEnd offs maxrow ncols s' k np E ∨
+        ((m < (renderCells cs).length ∧ WindowEnd offs maxrow ncols s' k np E) ∨
          ∃ j', FullEnd offs maxrow ncols s' k np E j' ∧
            offAt offs (j' + 1) ≤ offAt offs j' + (stageRow false E' j cs j').flatten.length) := by
   induction cs with
@@ -138,7 +138,7 @@ theorem row_stop {src : Bytes} {offs : List Nat} {maxrow ncols : Nat} {k np : Na
       obtain ⟨n, s', hsteps, hend⟩ := cell_tail_g c hwfc m hsrc hcs hext (hstr j hjlt)
       refine ⟨n, s', hsteps, ?_⟩
       rcases hend with h | ⟨h, hb⟩
-      · exact Or.inl h
+      · exact Or.inl ⟨hmlt, h⟩
       · exact Or.inr ⟨j, h, by rw [stageRow_self]; omega⟩
     · cases cs with
       | nil =>
@@ -200,7 +200,10 @@ theorem row_stop {src : Bytes} {offs : List Nat} {maxrow ncols : Nat} {k np : Na
                   intro hr
                   exact h ⟨fun _ => hcap, hr⟩)
               hsrc1 hcs1 (hext.stage j c.value) (hstr.stage hcap)
-          exact ⟨n1 + n2, s2, StepsN.trans hsteps1 hsteps2, hend⟩
+          refine ⟨n1 + n2, s2, StepsN.trans hsteps1 hsteps2, ?_⟩
+          rcases hend with ⟨h1, h2⟩ | h
+          · exact Or.inl ⟨by omega, h2⟩
+          · exact Or.inr h
         · obtain ⟨n, s', hsteps, hend⟩ := cell_full c hwfc _ B SEP hcs hext hsrc' (hstr j hjlt) (by omega)
           exact ⟨n, s', hsteps, Or.inr ⟨j, hend, by rw [stageRow_self]; omega⟩⟩
 
